@@ -74,6 +74,12 @@ build_sched() {
   (cd "$SCRATCH/hs" && go build -tags vsched_harness -o "$SCRATCH/vharness_i" . ) || die "instrumented harness build failed"
 }
 
+# the plain harness once more with the race detector (free-running pass for C20)
+build_race() {
+  [ -x "$SCRATCH/vharness" ] || build_plain
+  (cd "$SCRATCH/h" && go build -race -o "$SCRATCH/vharness_race" . ) || die "race build failed"
+}
+
 src_id() {
   (cd "$REPO" && { git rev-parse --short HEAD 2>/dev/null; git status --porcelain 2>/dev/null | grep -v '^??' | sha256sum | cut -c1-8; } | tr '\n' '+' | sed 's/+$//')
 }
@@ -85,6 +91,7 @@ case "$cmd" in
     build_plain
     build_noasm
     build_sched
+    build_race
     "$SCRATCH/vharness" selftest || die "oracle self-test failed"
     echo "setup ok"
     ;;
@@ -99,7 +106,13 @@ case "$cmd" in
     "$SCRATCH/vharness" replay "$2"
     exit $?
     ;;
-  C07|C09|C20)
+  C20)
+    build_sched
+    build_race
+    VERIF_RACE_BIN="$SCRATCH/vharness_race" GOMAXPROCS=${VERIF_GOMAXPROCS:-1} "$SCRATCH/vharness_i" "$cmd" "$tier"
+    exit $?
+    ;;
+  C07|C09)
     build_sched
     GOMAXPROCS=${VERIF_GOMAXPROCS:-1} "$SCRATCH/vharness_i" "$cmd" "$tier"
     exit $?
